@@ -137,7 +137,9 @@ theorem xml_bool (b : Bool) : xBool (formatBool b) = .ok b := xBool_format b
 /-- ByteString: every byte list. -/
 theorem xml_bytes (s : Bytes) : xBytes (hexUp s) = .ok s := xBytes_hex s
 
-/-- TextString: every byte list (the escaping of the attribute value is the standard library's). -/
+/-- TextString — DEFINITIONAL at this layer: in the model a text string IS its byte sequence, the value
+    attribute carries it unchanged; escaping / unescaping over the format's alphabet is `encoding/xml`'s
+    and is checked on the real code only (lex / text engines, whole alphabet and long strings). -/
 theorem xml_text (s : Bytes) : xText (strOfBytes s) = .ok s := xText_str s
 
 /-- DateTime: every second of years 1..9999, under the RFC 3339 hypothesis. -/
@@ -182,6 +184,7 @@ theorem json_mask_zero (g : Int) : maskToText (maskNs genTables g) [124] (unsign
 
 theorem json_bool (b : Bool) : jBool (some (.bool b)) = .ok b := rfl
 theorem json_bytes (s : Bytes) : jBytes (some (.str (hexUp s))) = .ok s := jBytes_hex s
+/-- definitional, as `xml_text`: the JSON string escaper / tokeniser is outside the model. -/
 theorem json_text (s : Bytes) : jText (some (.str (strOfBytes s))) = .ok s := jText_str s
 
 theorem json_date {R : Rfc3339} (hR : R.Lawful) (s : Int) (h1 : minEpoch ≤ s) (h2 : s ≤ maxEpoch) :
